@@ -11,6 +11,7 @@ import (
 	"path/filepath"
 	"sort"
 	"strings"
+	"time"
 
 	conformancev1 "connectrpc.com/conformance/internal/gen/proto/go/connectrpc/conformance/v1"
 	"connectrpc.com/conformance/internal/verifsim/simrt"
@@ -29,6 +30,7 @@ type worldCase struct {
 	Protocols    []int32        `json:"protocols"`
 	Codecs       []int32        `json:"codecs"`
 	TLS          bool           `json:"supports_tls"`
+	ClientCerts  bool           `json:"supports_tls_client_certs"`
 	RefClient    bool           `json:"reference_client_slots"`
 	RefServer    bool           `json:"reference_server_slots"`
 	MaxServers   uint           `json:"max_servers"`
@@ -46,6 +48,8 @@ type worldCase struct {
 }
 
 type worldServer struct {
+	stopSeenAt time.Duration // when the invariant first saw the server's context cancelled (0: not yet)
+	stopSeen   bool
 	*simServer
 	slot   string
 	handed int // requests addressed to this server that reached a client
@@ -96,11 +100,11 @@ func expectedFor(idx int) *conformancev1.ClientResponseResult {
 }
 
 // files writes the config and suite files of this world.
-func (w *world) files() (configFile, suiteFile string, err error) {
+func (w *world) files() (configFile string, suiteFiles []string, err error) {
 	cfg := &conformancev1.Config{Features: &conformancev1.Features{
 		SupportsTls:            proto.Bool(w.cs.TLS),
 		SupportsH2C:            proto.Bool(len(w.cs.Versions) > 1),
-		SupportsTlsClientCerts: proto.Bool(false),
+		SupportsTlsClientCerts: proto.Bool(w.cs.ClientCerts),
 		SupportsConnectGet:     proto.Bool(false),
 		Compressions:           []conformancev1.Compression{conformancev1.Compression_COMPRESSION_IDENTITY},
 		StreamTypes:            []conformancev1.StreamType{conformancev1.StreamType_STREAM_TYPE_UNARY},
@@ -120,7 +124,7 @@ func (w *world) files() (configFile, suiteFile string, err error) {
 			Response: &conformancev1.UnaryResponseDefinition_ResponseData{ResponseData: []byte(fmt.Sprintf("data-%d", i))},
 		}})
 		if err != nil {
-			return "", "", err
+			return "", nil, err
 		}
 		suite.TestCases = append(suite.TestCases, &conformancev1.TestCase{
 			Request: &conformancev1.ClientCompatRequest{
@@ -133,27 +137,45 @@ func (w *world) files() (configFile, suiteFile string, err error) {
 	}
 	cfgData, err := protojson.Marshal(cfg)
 	if err != nil {
-		return "", "", err
+		return "", nil, err
 	}
 	suiteData, err := protojson.Marshal(suite)
 	if err != nil {
-		return "", "", err
+		return "", nil, err
 	}
 	configFile = filepath.Join(w.dir, "config.yaml")
-	suiteFile = filepath.Join(w.dir, "suite.yaml")
+	suiteFile := filepath.Join(w.dir, "suite.yaml")
 	if err := os.WriteFile(configFile, cfgData, 0o644); err != nil {
-		return "", "", err
+		return "", nil, err
 	}
 	if err := os.WriteFile(suiteFile, suiteData, 0o644); err != nil {
-		return "", "", err
+		return "", nil, err
 	}
-	return configFile, suiteFile, nil
+	suiteFiles = []string{suiteFile}
+	if w.cs.ClientCerts {
+		// the same cases once more as a suite that relies on TLS client certificates
+		certs := proto.Clone(suite).(*conformancev1.TestSuite)
+		certs.Name = "VerifCerts"
+		certs.ReliesOnTls = true
+		certs.ReliesOnTlsClientCerts = true
+		data, err := protojson.Marshal(certs)
+		if err != nil {
+			return "", nil, err
+		}
+		certFile := filepath.Join(w.dir, "suite-certs.yaml")
+		if err := os.WriteFile(certFile, data, 0o644); err != nil {
+			return "", nil, err
+		}
+		suiteFiles = append(suiteFiles, certFile)
+	}
+	return configFile, suiteFiles, nil
 }
 
-func (w *world) flags(configFile, suiteFile string) *Flags {
+
+func (w *world) flags(configFile string, suiteFiles []string) *Flags {
 	f := &Flags{
 		ConfigFile:   configFile,
-		TestFiles:    []string{suiteFile},
+		TestFiles:    suiteFiles,
 		MaxServers:   w.cs.MaxServers,
 		Parallelism:  4,
 		Verbose:      w.cs.Verbose,
@@ -201,7 +223,10 @@ func (w *world) hook(kind string, args []string) verifImpl {
 				// a reference server reports feedback about a request when it receives
 				// the RPC, whether or not the client ever reports a result
 				if w.serverFeedback(req.TestName) {
-					w.emitServerFeedback(c, req.TestName)
+					// the last thing a dying server writes may lack its newline (the
+					// reference server prints prefix, message and newline separately)
+					dying := s != nil && s.sc.ExitAfterK >= 0 && s.handed+1 >= s.sc.ExitAfterK && !s.died
+					w.emitServerFeedback(c, req.TestName, dying && w.sim.Choose(2, "world.feedback.nonl") == 1)
 				}
 				if s != nil {
 					s.handed++
@@ -271,7 +296,7 @@ func (w *world) answer(slot, name string, serial int) *conformancev1.ClientCompa
 
 // emitServerFeedback writes "<test name>: msg" to the stderr of the server the
 // request was addressed to (if it is a reference server that is still up).
-func (w *world) emitServerFeedback(c *simClient, name string) {
+func (w *world) emitServerFeedback(c *simClient, name string, unterminated bool) {
 	var req *conformancev1.ClientCompatRequest
 	for _, r := range c.received {
 		if r.TestName == name {
@@ -286,6 +311,10 @@ func (w *world) emitServerFeedback(c *simClient, name string) {
 		return
 	}
 	line := name + ": scripted server feedback\n"
+	if unterminated {
+		line = strings.TrimSuffix(line, "\n")
+		s.fired["feedback-line-unterminated-at-exit"]++
+	}
 	n, err := simrt.Write(s.errw, []byte(line), "world.feedback")
 	if err == nil && n == len(line) && !s.exited {
 		w.fbWritten[name] = true
@@ -304,7 +333,9 @@ func sortedKeys[V any](m map[string]V) []string {
 // worldC05 evaluates the C05 clauses on a finished run.
 func worldC05(w *world, cs *worldCase, selected map[string]*conformancev1.TestCase, viol func(string, string, ...any), res *simwork.Result) {
 	count := map[string]int{}
-	clean := cs.ClientFault == "none"
+	// a slow node (a runnable peer that is not scheduled for seconds) can make a
+	// server miss the runner's start timeout: its cases are then setup failures
+	clean := cs.ClientFault == "none" && w.sim.DelayedRunnable == 0
 	for _, s := range w.servers {
 		if len(s.fired) > 0 {
 			clean = false
@@ -333,12 +364,21 @@ func worldC05(w *world, cs *worldCase, selected map[string]*conformancev1.TestCa
 				sr := s.request
 				if sr.Protocol != tc.Request.Protocol || sr.HttpVersion != tc.Request.HttpVersion ||
 					sr.UseTls != (len(tc.Request.ServerTlsCert) > 0) || (len(sr.ClientTlsCert) > 0) != (tc.Request.ClientTlsCreds != nil) {
-					viol("c05/server-mismatch", "request %q (%s, %s, tls=%v) was addressed to a server started for (%s, %s, tls=%v)",
-						name, tc.Request.Protocol, tc.Request.HttpVersion, len(tc.Request.ServerTlsCert) > 0, sr.Protocol, sr.HttpVersion, sr.UseTls)
+					viol("c05/server-mismatch", "request %q (%s, %s, tls=%v, client certificate=%v) was addressed to a server started for (%s, %s, tls=%v, client certificate=%v)",
+						name, tc.Request.Protocol, tc.Request.HttpVersion, len(tc.Request.ServerTlsCert) > 0, tc.Request.ClientTlsCreds != nil, sr.Protocol, sr.HttpVersion, sr.UseTls, len(sr.ClientTlsCert) > 0)
 				}
 				if req.Protocol != tc.Request.Protocol || req.HttpVersion != tc.Request.HttpVersion || req.Codec != tc.Request.Codec {
 					viol("c05/request-altered", "request %q carries (%s, %s, %s), its permutation is (%s, %s, %s)", name,
 						req.Protocol, req.HttpVersion, req.Codec, tc.Request.Protocol, tc.Request.HttpVersion, tc.Request.Codec)
+				}
+				if want := tc.Request.ClientTlsCreds != nil; want != (req.ClientTlsCreds != nil && len(req.ClientTlsCreds.Cert) > 0 && len(req.ClientTlsCreds.Key) > 0) {
+					viol("c05/client-certificate", "request %q: permutation uses a client certificate = %v, but the request handed to the client carries credentials = %v", name, want, req.ClientTlsCreds != nil)
+				}
+				if tc.Request.ClientTlsCreds != nil && req.ClientTlsCreds != nil && string(sr.ClientTlsCert) != string(req.ClientTlsCreds.Cert) {
+					viol("c05/client-certificate", "request %q: the client certificate in the request is not the one its server was started with", name)
+				}
+				if tc.Request.ClientTlsCreds != nil {
+					res.Probes["c05-client-cert-permutation"]++
 				}
 				if req.Host != "127.0.0.1" {
 					viol("c05/address", "request %q has host %q, server announced 127.0.0.1", name, req.Host)
